@@ -48,6 +48,10 @@ def oracle(ctx, kernel, meta):
         return {"what": f"action/protocol/sequence differ: {o.action} {o.protocol.number} {o.sequence}"}
     for f, ad in (("src", o.srcaddr), ("dst", o.dstaddr)):
         ob = acegen.obs_addr(ad)
+        if a[f][0] == "group":
+            if ob[0] != "addrgroup" or ob[1] != a[f][1]:
+                return {"what": f"{f} is the address group {a[f][1]!r} in the text, the object has {ad.line!r}"}
+            continue
         b, m = a[f][1], a[f][2]
         if ob[0] == "addrgroup" or ob[2] != m or ob[1] != (b & ~m & acegen.ag.ALL):
             return {"what": f"{f} address set differs from the text: {ad.line!r}"}
